@@ -10,8 +10,8 @@
     Store.Backup whose destination stalls for d, by real user snapshots racing with Close, and by
     nobody; with and without snapshot-on-close.  The gate's own hook events (cas.begin / cas.end under
     its mutex), time-stamped on arrival, give call / acquisition / release times; TraceCloseGate.tla
-    evaluates the model's Prompt and MayFail predicates on them with generous constants (Eps = 1.5 s
-    on the whole Close, "about ten seconds" >= 8.5 s)."""
+    evaluates the model's Prompt and MayFail predicates on them with generous constants (Close obtains
+    the gate within 1.5 s of max(release, its first attempt); "about ten seconds" >= 8.5 s)."""
 import json, os, threading, vlib
 LEVEL = "model_checking"
 TECHNIQUE = "timed TLA+ spec of Close vs. a gate holder, TLC exhaustive over all placements + negative controls; measured timings of the real store evaluated with the spec's predicates by trace validation"
@@ -55,7 +55,7 @@ def run(ctx):
     if len(cases) < 10 or not any(c["rel"] > c["t0"] for c in cases):
         raise vlib.Undecided("driver produced no contended close: %s" % cases[:3])
     ctx.cov["driver"] = json.loads(res["p"].stdout.strip().splitlines()[-1])
-    ctx.cov["cases"] = [{k: c[k] for k in ("kind", "d_ms", "o_ms", "snap_on_close", "ok", "wait_ms", "tries")} for c in cases]
+    ctx.cov["cases"] = [{k: c[k] for k in ("kind", "d_ms", "o_ms", "snap_on_close", "ok", "wait_ms", "tries", "t0", "ready", "rel", "gate", "ret")} for c in cases]
 
     def dclass(ms):
         return "0" if ms == 0 else "<=100ms" if ms <= 100 else "<=1s" if ms <= 1000 else "<=5s" if ms <= 5000 else ">10s"
@@ -68,7 +68,7 @@ def run(ctx):
         # a close that came back 3 s after the release it waited for
         for r in rs:
             if r.get("ev") == "case" and r["ok"] and r["rel"] > r["t0"]:
-                r["ret"] += 300
+                r["gate"] += 300
                 return rs
         raise vlib.Undecided("no place to corrupt")
     vlib.trace_check(ctx, "TraceCloseGate", "TraceCloseGate.cfg", tr, "close vs. gate holder", key_fn=key, selftest=corrupt, timeout=600)
@@ -76,7 +76,7 @@ def run(ctx):
     ctx.sample(cases[:8], limit=8)
     ctx.cov["exhaustive"] = False
     ctx.assumptions += [
-        "durations are wall-clock measurements on a shared machine; only generous one-sided bounds are asserted (whole Close within 1.5 s of max(release, call); a give-up not before 8.5 s)",
+        "durations are wall-clock measurements on a shared machine; only generous one-sided bounds are asserted (gate obtained within 1.5 s of max(release, first attempt); a give-up not before 8.5 s); the disk work of the snapshot-on-close and of the shutdown itself is not judged",
         "a Close that succeeds although the holder outlasted the limit would not be reported (the property only says when Close may fail)",
         "the gate's hook events are emitted under its mutex and time-stamped when they reach the recorder",
     ]
